@@ -262,6 +262,40 @@ def check(ctx):
     ctx.decide(sym is not None and sym.node is iv, "R-TABLE/vflag-mask", construct, avp.where(ld), "load uses bromelia.utils.is_vendor_id",
                "DiameterAVP.load does not use bromelia.utils.is_vendor_id", key="vmask_resolve", nontrivial=False)
 
+    # ---- 1c decoding keeps no process-wide state --------------------------------------------------
+    # the decoded objects are a function of the bytes alone: nothing on the decode path (stream readers, registry, type and
+    # AVP constructors) may write a class-level / module-level variable - such state survives a decoding error and makes the
+    # result of a later, well-formed stream depend on the history of earlier ones
+    ctx.clause = "1c-decoder-stateless"
+    n_dec = 0
+    for fi in repo.funcs.values():
+        mn = fi.mod.name
+        on_path = (mn == "bromelia.base" and fi.cls is not None and fi.cls.name in ("DiameterAVP", "DiameterMessage", "DiameterHeader", "DiameterAvpLoader")
+                   and fi.name in ("load", "get_avp_class", "_get_load_avps_dictionary", "has_updated")) or \
+            (mn == "bromelia.types" and fi.cls is not None and fi.name in ("__init__", "parser_data")) or \
+            (mn.startswith("bromelia.avps.") and fi.cls is not None and fi.name == "__init__")
+        if not on_path:
+            continue
+        n_dec += 1
+        for x in walk_no_nested(fi.node):
+            tgt = None
+            if isinstance(x, (ast.Assign, ast.AugAssign, ast.AnnAssign)):
+                for t in (x.targets if isinstance(x, ast.Assign) else [x.target]):
+                    if isinstance(t, ast.Attribute) and isinstance(t.value, ast.Name) and t.value.id not in ("self", "cls"):
+                        r_ = repo.resolve(fi.mod, t.value.id)
+                        if r_ is not None and r_.kind == "class":
+                            tgt = t
+            elif isinstance(x, ast.Global):
+                tgt = x
+            if tgt is not None:
+                ctx.violate("R-WHO/decoder-state", fi.qual, fi.where(x),
+                            f"`{ast.unparse(x)[:70]}` writes process-wide state on the decoding path: what a byte stream decodes to "
+                            f"then depends on earlier decodes (and a decoding error in between leaves the state behind)",
+                            key="state:" + ast.unparse(tgt)[:40])
+    if n_dec:
+        ctx.hold("R-WHO/decoder-state", "bromelia decode path", "bromelia/", f"{n_dec} functions on the decode path write no class-level or "
+                 f"global variable", key="stateless")
+
     # ---- 2 bytes identity ----------------------------------------------------------------------
     ctx.clause = "2-bytes-identity"
     memo = {}
